@@ -76,9 +76,13 @@ const char *rtosc_match_path(const char *pattern,
         path_end = &msg; // writing *path_end = msg later will have no effect
     while(1) {
         //Check for special characters
-        if(*pattern == ':' && !*msg)
+        if(*pattern == ':') {
+            //the path part of the pattern ends here, so the path must, too
+            //(a ':' in the message is not the pattern's type separator)
+            if(*msg)
+                return NULL;
             return *path_end = msg, pattern;
-        else if(*pattern == '{') {
+        } else if(*pattern == '{') {
             //An alternative may be a prefix of another one ({a,ab}c), so
             //committing to the first one the message spells is not enough:
             //try each spelled alternative until the rest of the pattern
